@@ -1,0 +1,81 @@
+//go:build verif
+
+// Contracts for package call (the reflective binder), read by /verif's VC generator (govc).
+// Comment-only. reflect is abstracted: rtNumIn/rtNumOut/rtVariadic are the signature facts,
+// rvOf boxes a value, Value.Call panics unless every argument is assignable and counts one
+// invocation in the ghost counter `invoked` (ghost(invokedLen): length of the argument slice).
+package call
+
+//@ spec abstract rtNumIn(t reflect.Type) int
+//@ spec abstract rtVariadic(t reflect.Type) bool
+//@ spec abstract rvOf(x types.MalType) reflect.Value
+//@ spec abstract rvInterface(v reflect.Value) types.MalType
+//@ spec abstract rtNumOutOfValue(v reflect.Value) int
+
+// registration: panics are the intended validation of the declaration (explicit panic calls);
+// nothing else may panic. The window of lisp argument counts accepted by the registered
+// wrapper must be the declared pair, or the one derived from the signature, counting lisp
+// arguments, i.e. without the context parameter.
+//@ func call(overrideFN, namespace, fIn, args) ()
+//@   requires validEnvVal(namespace) && fIn != nil
+//@   panics explicit
+//@   at "packageName := functionFullName[:n]" assume n >= 0
+//@   at "namespace.Set(types.Symbol{Val: functionName}, types.Func{Fn: extCall})" assert implies(len(args) == 1 || len(args) == 2, ite(contextRequired, minArgs - 1, minArgs) == args[0])
+//@   at "namespace.Set(types.Symbol{Val: functionName}, types.Func{Fn: extCall})" assert implies(len(args) == 2, ite(contextRequired, maxArgs - 1, maxArgs) == args[1])
+//@   at "namespace.Set(types.Symbol{Val: functionName}, types.Func{Fn: extCall})" assert implies(len(args) != 1 && len(args) != 2 && !rtVariadic(finType), ite(contextRequired, minArgs - 1, minArgs) == rtNumIn(finType) - ite(contextRequired, 1, 0) && maxArgs == minArgs)
+//@   at "namespace.Set(types.Symbol{Val: functionName}, types.Func{Fn: extCall})" assert implies(len(args) != 1 && len(args) != 2 && rtVariadic(finType), ite(contextRequired, minArgs - 1, minArgs) <= 0)
+
+//@ func _args(minParams, maxParams, args) (in)
+//@   panics iff len(args) < minParams || len(args) > maxParams
+//@   ensures len(in) == len(args) && forall(k, 0, len(args), implies(args[k] != nil, in[k] == rvOf(args[k])))
+//@   loop 1 invariant len(in) == len(args) && fresh(in) && forall(k, 0, rangeindex + 1, implies(args[k] != nil, in[k] == rvOf(args[k])))
+
+//@ func _args_ctx(ctx, minParams, maxParams, args) (in)
+//@   panics iff len(args) < minParams - 1 || len(args) > maxParams - 1
+//@   ensures len(in) == len(args) + 1 && in[0] == rvOf(ctx) && forall(k, 0, len(args), implies(args[k] != nil, in[k+1] == rvOf(args[k])))
+//@   loop 1 invariant len(in) == len(args) + 1 && fresh(in) && in[0] == rvOf(ctx) && forall(k, 0, rangeindex + 1, implies(args[k] != nil, in[k+1] == rvOf(args[k])))
+
+// result mapping by convention
+//@ func _nil_nil(res) (result, err)
+//@   panics never
+//@   ensures result == nil && err == nil
+
+//@ func _nil_error(res) (result, err)
+//@   requires len(res) >= 1
+//@   ensures result == nil && implies(rvInterface(res[0]) == nil, err == nil) && implies(rvInterface(res[0]) != nil, err == rvInterface(res[0]))
+
+//@ func _result_error(res) (result, err)
+//@   requires len(res) >= 2
+//@   ensures result == rvInterface(res[0]) && implies(rvInterface(res[1]) == nil, err == nil) && implies(rvInterface(res[1]) != nil, err == rvInterface(res[1]))
+
+// the six wrapper closures (context / no context x 0, 1, 2 results): never panic; the Go
+// function is invoked (once) iff the count is in the window and reflect accepts the
+// arguments; otherwise the caller gets an error
+//@ func call$1(ctx, args) (result, err)
+//@   panics never
+//@   ensures implies(len(args) < old(minArgs) - 1 || len(args) > old(maxArgs) - 1, err != nil && ghost(invoked) == old(ghost(invoked)))
+//@   ensures implies(len(args) >= old(minArgs) - 1 && len(args) <= old(maxArgs) - 1, ghost(invoked) == old(ghost(invoked)) + ghost(assignable) && (ghost(assignable) == 1 || err != nil) && implies(ghost(assignable) == 1, ghost(invokedLen) == len(args) + 1))
+//@ func call$2(ctx, args) (result, err)
+//@   panics never
+//@   ensures implies(len(args) < old(minArgs) || len(args) > old(maxArgs), err != nil && ghost(invoked) == old(ghost(invoked)))
+//@   ensures implies(len(args) >= old(minArgs) && len(args) <= old(maxArgs), ghost(invoked) == old(ghost(invoked)) + ghost(assignable) && (ghost(assignable) == 1 || err != nil) && implies(ghost(assignable) == 1, ghost(invokedLen) == len(args)))
+//@ func call$3(ctx, args) (result, err)
+//@   requires rtNumOutOfValue(finValue) == 1
+//@   panics never
+//@   ensures implies(len(args) < old(minArgs) - 1 || len(args) > old(maxArgs) - 1, err != nil && ghost(invoked) == old(ghost(invoked)))
+//@   ensures implies(len(args) >= old(minArgs) - 1 && len(args) <= old(maxArgs) - 1, ghost(invoked) == old(ghost(invoked)) + ghost(assignable) && (ghost(assignable) == 1 || err != nil) && implies(ghost(assignable) == 1, ghost(invokedLen) == len(args) + 1))
+//@ func call$4(ctx, args) (result, err)
+//@   requires rtNumOutOfValue(finValue) == 1
+//@   panics never
+//@   ensures implies(len(args) < old(minArgs) || len(args) > old(maxArgs), err != nil && ghost(invoked) == old(ghost(invoked)))
+//@   ensures implies(len(args) >= old(minArgs) && len(args) <= old(maxArgs), ghost(invoked) == old(ghost(invoked)) + ghost(assignable) && (ghost(assignable) == 1 || err != nil) && implies(ghost(assignable) == 1, ghost(invokedLen) == len(args)))
+//@ func call$5(ctx, args) (result, err)
+//@   requires rtNumOutOfValue(finValue) == 2
+//@   panics never
+//@   ensures implies(len(args) < old(minArgs) - 1 || len(args) > old(maxArgs) - 1, err != nil && ghost(invoked) == old(ghost(invoked)))
+//@   ensures implies(len(args) >= old(minArgs) - 1 && len(args) <= old(maxArgs) - 1, ghost(invoked) == old(ghost(invoked)) + ghost(assignable) && (ghost(assignable) == 1 || err != nil) && implies(ghost(assignable) == 1, ghost(invokedLen) == len(args) + 1))
+//@ func call$6(ctx, args) (result, err)
+//@   requires rtNumOutOfValue(finValue) == 2
+//@   panics never
+//@   ensures implies(len(args) < old(minArgs) || len(args) > old(maxArgs), err != nil && ghost(invoked) == old(ghost(invoked)))
+//@   ensures implies(len(args) >= old(minArgs) && len(args) <= old(maxArgs), ghost(invoked) == old(ghost(invoked)) + ghost(assignable) && (ghost(assignable) == 1 || err != nil) && implies(ghost(assignable) == 1, ghost(invokedLen) == len(args)))
